@@ -181,7 +181,11 @@ static void scenario_addcrystal(int fd) {
   { int nn = 0; char **l1 = Crystal_GetCrystalsList(NULL, &nn, NULL); if (l1) { for (int k = 0; l1[k]; k++) xrlFree(l1[k]); xrlFree(l1); n0 = nn; } }
   for (int k = 0; k < CRYSTALARRAY_MAX + 8 - n0; k++) {
     char name[40]; snprintf(name, sizeof name, "XvCpp%04d", k);
-    xrlpp::Crystal::Struct c(name, base.a + 0.001 * k, base.b, base.c, base.alpha, base.beta, base.gamma, 0.0, base.atom);
+    /* the caller's stored volume is whatever the caller says (here deliberately not the cell's): C's Crystal_AddCrystal recomputes it for the
+     * STORED copy only, so the object itself must answer the same before and after it was added, and like the equivalent C struct */
+    double vol = (k % 3 == 0) ? 0.0 : (k % 3 == 1 ? 150.0 + k : base.volume);
+    xrlpp::Crystal::Struct c(name, base.a + 0.001 * k, base.b, base.c, base.alpha, base.beta, base.gamma, vol, base.atom);
+    Out d_before = guarded([&](Out &o) { o.v[0] = c.dSpacing(1, 1, 1); });
     int before = 0, after = 0; char **l = Crystal_GetCrystalsList(NULL, &before, NULL); if (l) { for (int j = 0; l[j]; j++) xrlFree(l[j]); xrlFree(l); }
     /* additions alternate between the free function and the member; the wrapper's own list must track C's list either way */
     Out w = guarded([&](Out &o) { o.v[0] = (k % 4 >= 2) ? xrlpp::Crystal::AddCrystal(c) : c.AddCrystal(); });   /* member, member, free, free, ... */
@@ -191,6 +195,15 @@ static void scenario_addcrystal(int fd) {
       if (lw.kind != 0 || lw.what != cl) say("c18:Crystal::GetCrystalsList:differs-from-C-after-additions", "after " + std::to_string(k + 1) + " additions the wrapper lists " + std::to_string(lw.aux) + " crystals, C lists " + std::to_string(nc));
     }
     l = Crystal_GetCrystalsList(NULL, &after, NULL); if (l) { for (int j = 0; l[j]; j++) xrlFree(l[j]); xrlFree(l); }
+    if (k < 40 || k % 16 == 0) {
+      Out d_after = guarded([&](Out &o) { o.v[0] = c.dSpacing(1, 1, 1); });
+      Out d_copy = guarded([&](Out &o) { xrlpp::Crystal::Struct c2(c); o.v[0] = c2.dSpacing(1, 1, 1); });
+      Crystal_Struct cs; memset(&cs, 0, sizeof cs); cs.name = name; cs.a = base.a + 0.001 * k; cs.b = base.b; cs.c = base.c; cs.alpha = base.alpha; cs.beta = base.beta; cs.gamma = base.gamma; cs.volume = vol;
+      cs.n_atom = 0; cs.atom = NULL; xrl_error *ce = NULL; double dc = Crystal_dSpacing(&cs, 1, 1, 1, &ce); int cfail = ce != NULL; if (ce) xrl_error_free(ce);
+      bool same = d_before.kind == d_after.kind && d_after.kind == d_copy.kind && !memcmp(&d_before.v[0], &d_after.v[0], sizeof(double)) && !memcmp(&d_after.v[0], &d_copy.v[0], sizeof(double));
+      if (!same) say("c18:Crystal::Struct:object-answers-differently-after-AddCrystal", "dSpacing(1,1,1) of one wrapper object (stored volume " + std::to_string(vol) + "): " + std::to_string(d_before.v[0]) + " before AddCrystal, " + std::to_string(d_after.v[0]) + " after, " + std::to_string(d_copy.v[0]) + " on a copy");
+      else if ((d_after.kind != 0) != (cfail != 0) || (!cfail && memcmp(&d_after.v[0], &dc, sizeof(double)))) say("c18:Crystal::dSpacing:wrapper-object-differs-from-C-struct", "wrapper " + std::to_string(d_after.v[0]) + " (kind " + KN[d_after.kind > 4 ? 4 : d_after.kind] + "), C " + std::to_string(dc) + (cfail ? " (error)" : ""));
+    }
     bool full = before >= CRYSTALARRAY_MAX;
     if (!full) {
       if (w.kind != 0 || w.v[0] != 1 || after != before + 1) { say("c18:Crystal::AddCrystal:wrapper-fails-on-success", "adding a new crystal below capacity: kind " + std::string(KN[w.kind > 4 ? 4 : w.kind]) + " " + w.what); break; }
